@@ -78,6 +78,16 @@ def build(tier, seed):
             B = dict(A)
             B["ops"] = [{"op": "integrate", "t": a + (b - a) * 0.625}, {"op": "integrate"}]
             jobs.append(("reset", A, B))
+    # a run whose last increments OVERFLOWED (a growing solution, fixed step, no error raised), then reset() and a short, finite run: nothing of
+    # the overflow - e.g. an inf left in a work buffer that is cleared by multiplying with zero - may reach the second run
+    for m in ["Symplectic Forward Euler", "ABAS5O6H", "RK4"] + (["BABS9O7H", "Midpoint", "BackwardEuler"] if thorough else []):
+        for sg in (1.0, -1.0):
+            A = gen.base(m, 0.0, sg * 2000.0, 0.5, problem="grow", y0=[1.0, 0.5], dense=False)
+            A["budget"] = 2000000
+            A["ops"] = [{"op": "integrate"}, {"op": "reset"}, {"op": "integrate", "t": sg * 5.0}]
+            B = dict(A)
+            B["ops"] = [{"op": "integrate", "t": sg * 5.0}]
+            jobs.append(("reset", A, B))
     # split invariance
     for m in (["RK4", "RK5", "ABAS5O6H", "BackwardEuler", "RK45CK", "DOPRI45"] + (["Euler", "CrankNicolson", "RadauIIA5", "BABS9O7H"] if thorough else [])):
         fam = scen.family_of(m)
